@@ -106,8 +106,18 @@ def run_ops(case, real_connection_made=False):
     def submit(c, script=()):
         if c['cb']:
             assert c['text'].startswith('GETINFO ')
-            d = proto.get_info_incremental(
-                c['text'][8:], lambda line, i=c['id']: cur.append(['linecb', i, tohex(line)]))
+            ret = c.get('cbret', (None, 1, None, 0)[c['id'] % 4])
+            if ret is None:
+                d = proto.get_info_incremental(
+                    c['text'][8:], lambda line, i=c['id']: cur.append(['linecb', i, tohex(line)]))
+            else:
+                # the same thing get_info_incremental does (queue_command with a callback that skips the bare
+                # OK), but with a callback that RETURNS something: what a callback returns must not matter
+                def line_cb(line, i=c['id'], ret=ret):
+                    if line.strip() != 'OK':
+                        cur.append(['linecb', i, tohex(line)])
+                    return ret
+                d = proto.queue_command(c['text'], line_cb)
         else:
             d = proto.queue_command(c['text'])
         watch(d, c['id'], script)
